@@ -5,12 +5,14 @@ import VaxisModel.Lemmas.ConcMeasure
 # The invariant of the shutdown protocol
 
 `Inv s` collects the conservation laws of the Close / Suspend / Resume protocol: who may be inside
-`Close`, who may be inside `Suspend`, where the close signal, the closed signal and the EOF token
-are, that the reader will be woken up, and that blocking posts have room (or a consumer).
+`Close`, who may be inside `Suspend`, where the close signal and the closed signal are, that the
+parser's channel is closed exactly when the parser is done, and that the reader will be woken up.
+It says nothing about the event queue, about who consumes, about kill signals or about which
+goroutine runs `Close` (F13 and F53 are repaired: the protocol no longer needs such hypotheses).
 It holds in a running session, is preserved by every label a scheduler may pick and by the
 environment's labels under their side conditions (a sequential main goroutine; `Close` from any
-number of other goroutines), and in a state of rest it forces every caller to have returned and the
-library's goroutines to be done.
+number of goroutines, the input goroutines included), and in a state of rest it forces every caller
+to have returned and the library's goroutines to be done.
 -/
 namespace VaxisModel.Lemmas.ConcInv
 open VaxisModel.Model.Conc VaxisModel.Lemmas.ConcMeasure
@@ -85,13 +87,6 @@ def fBad (c : Caller) : Nat :=
   match c.inClose, c.pc with
   | false, .checkFlag | false, .postQuit | false, .closeQuit => 1
   | _, _ => 0
-/-- events this caller may still cause to be posted: the quit event, the reply to its DA1 query -/
-def fDebt (c : Caller) : Nat :=
-  match c.pc with
-  | .checkFlag | .postQuit => 2
-  | .checkSuspended | .signalClose | .writeDA1 => 1
-  | _ => 0
-
 /-! ### the other components -/
 
 /-- the parser has left its loop -/
@@ -108,63 +103,23 @@ theorem pE_le (p : PPc) : pE p ≤ 1 := by cases p <;> simp [pE]
 def pT (s : SSys) : Nat := pD s.ppc - s.closedSig
 /-- 1 for the empty input buffer, 0 otherwise -/
 def emptyN (l : List (Option Nat)) : Nat := 1 - l.length
-def iDone : IPc → Nat | .done => 1 | _ => 0
-def eofCount : List Tok → Nat
-  | [] => 0
-  | .eof :: r => 1 + eofCount r
-  | .seq _ :: r => eofCount r
 def b2n (b : Bool) : Nat := if b then 1 else 0
 @[simp] theorem b2n_true : b2n true = 1 := rfl
 @[simp] theorem b2n_false : b2n false = 0 := rfl
 theorem b2n_le (b : Bool) : b2n b ≤ 1 := by cases b <;> simp
 
-def toksPosts : List Tok → Nat
-  | [] => 0
-  | .seq k :: r => k + toksPosts r
-  | .eof :: r => toksPosts r
-def ipcPosts : IPc → Nat | .posting k => k | _ => 0
-def ppcPosts : PPc → Nat | .emitting k => k | _ => 0
-def inbufPosts : List (Option Nat) → Nat
-  | [] => 0
-  | none :: r => inbufPosts r
-  | some k :: r => k + inbufPosts r
-
-/-- events still to be posted by the library (and by the callers of `Close`/`Suspend`) -/
-def inFlight (s : SSys) : Nat :=
-  ipcPosts s.ipc + toksPosts s.seqs + ppcPosts s.ppc + inbufPosts s.inbuf + s.da1Pending + sumBy fDebt s.callers
-
-/-- The application keeps receiving events, or the queue has room for everything in flight. -/
-def RoomOK (s : SSys) : Prop := b2n s.consumer = 1 ∨ s.queueLen + inFlight s ≤ s.qcap
-
-theorem eofCount_append (a b : List Tok) : eofCount (a ++ b) = eofCount a + eofCount b := by
-  induction a with
-  | nil => simp [eofCount]
-  | cons t r ih => cases t <;> simp [eofCount, ih]; omega
-
-theorem toksPosts_append (a b : List Tok) : toksPosts (a ++ b) = toksPosts a + toksPosts b := by
-  induction a with
-  | nil => simp [toksPosts]
-  | cons t r ih => cases t <;> simp [toksPosts, ih]; omega
-
-theorem inbufPosts_append (a b : List (Option Nat)) : inbufPosts (a ++ b) = inbufPosts a + inbufPosts b := by
-  induction a with
-  | nil => simp [inbufPosts]
-  | cons t r ih => cases t <;> simp [inbufPosts, ih]; omega
-
 structure Inv (s : SSys) : Prop where
   /-- the statement order of `Suspend` and the assignment in `Resume` are those of the source -/
   order : s.da1First = false
   clears : s.resumeClears = true
-  /-- nobody has sent a kill signal, `Close` is not running on the input goroutine (F13's region) -/
-  nokill : s.killSig = false
-  ipcOK : ∀ c, s.ipc ≠ .closing c
   qpos : 1 ≤ s.qcap
   /-- at most one goroutine is past the test-and-set of `closed`, and `chQuit` is closed by it -/
   flag : sumBy fActive s.callers + s.quitCloses = b2n s.closedFlag
   pastFlag : 1 ≤ sumBy fPastFlag s.callers → b2n s.closedFlag = 1
-  /-- the main goroutine is sequential: a bare `Suspend` excludes any other call -/
+  /-- the main goroutine is sequential: a bare `Suspend` excludes any other call, and no kill signal is
+  pending while it runs (`vx.suspended` is a plain field) -/
   seq1 : sumBy fSusp s.callers ≤ 1
-  seq2 : 1 ≤ sumBy fSusp s.callers → sumBy fCloseSide s.callers = 0
+  seq2 : 1 ≤ sumBy fSusp s.callers → sumBy fCloseSide s.callers + b2n s.killSig = 0
   wellTyped : sumBy fBad s.callers = 0
   /-- the close signal: sent = pending + taken by the parser -/
   sig : sumBy fWD s.callers + sumBy fWC s.callers + pT s = s.closeSig + pX s.ppc
@@ -174,22 +129,65 @@ structure Inv (s : SSys) : Prop where
   susp : b2n s.suspendedFlag = sumBy fSC s.callers + sumBy fWD s.callers + sumBy fWC s.callers + pT s
   excl : sumBy fSC s.callers + sumBy fWD s.callers + sumBy fWC s.callers + pT s ≤ 1
   afterClose : 1 ≤ sumBy fCQ s.callers + s.quitCloses → b2n s.suspendedFlag = 1
-  /-- the EOF token: emitted = in the channel + taken by the input goroutine -/
-  eof : pE s.ppc = eofCount s.seqs + iDone s.ipc
+  /-- the parser's channel is closed exactly when the parser is done -/
+  chan : b2n s.seqsClosed = pD s.ppc
   /-- the reader is woken up: a pending close signal with the parser blocked in `ReadRune` on an
   empty input means the DA1 query is still to be written or its reply is still to come -/
   wake : s.closeSig + pR s.ppc + emptyN s.inbuf ≤ 2 + sumBy fWD s.callers + s.da1Pending
-  room : b2n s.consumer = 1 ∨ s.queueLen + inFlight s ≤ s.qcap
 
-/-- A running session with nobody closing or suspending satisfies the invariant. -/
-theorem inv_running (q n : Nat) (c : Bool) (ib : List (Option Nat)) (hq : 1 ≤ q) (hroom : c = true ∨ n + inbufPosts ib ≤ q) :
-    Inv { qcap := q, queueLen := n, consumer := c, inbuf := ib, ppc := .reading } := by
-  refine ⟨rfl, rfl, rfl, by simp, hq, by simp [sumBy], by simp [sumBy], by simp [sumBy], by simp [sumBy], by simp [sumBy],
+/-- A running session with nobody closing or suspending satisfies the invariant — whatever the queue
+holds, whether or not anybody consumes, whatever input and signals are pending, whatever the input
+goroutine is doing, however many input goroutines of earlier sessions are still alive. -/
+theorem inv_running (q n : Nat) (c : Bool) (ib : List (Option Nat)) (i : IPc) (sq : List Tok) (k w : Bool) (o : List Old)
+    (hq : 1 ≤ q) :
+    Inv { qcap := q, queueLen := n, consumer := c, inbuf := ib, ppc := .reading, ipc := i, seqs := sq, killSig := k,
+          winchSig := w, olds := o } := by
+  refine ⟨rfl, rfl, hq, by simp [sumBy], by simp [sumBy], by simp [sumBy], by simp [sumBy], by simp [sumBy],
     by simp [sumBy, pT, pX, pD], by simp, by simp [sumBy, pT, pD], by simp [sumBy, pT, pD], by simp [sumBy],
-    by simp [pE, eofCount, iDone], ?_, ?_⟩
-  · simp [pR, emptyN, sumBy]; omega
-  · rcases hroom with h | h
-    · exact Or.inl (by simp [h])
-    · refine Or.inr ?_; simp [inFlight, ipcPosts, toksPosts, ppcPosts, sumBy]; omega
+    by simp [pD], ?_⟩
+  simp [pR, emptyN, sumBy]; omega
+
+/-- The invariant does not mention the input goroutines, their channels' contents or the queue. -/
+theorem inv_ipc_seqs (s : SSys) (i : IPc) (q : List Tok) (h : Inv s) : Inv { s with ipc := i, seqs := q } :=
+  ⟨h.order, h.clears, h.qpos, h.flag, h.pastFlag, h.seq1, h.seq2, h.wellTyped, h.sig, h.closed, h.susp, h.excl, h.afterClose,
+    h.chan, h.wake⟩
+
+theorem inv_olds (s : SSys) (o : List Old) (h : Inv s) : Inv { s with olds := o } :=
+  ⟨h.order, h.clears, h.qpos, h.flag, h.pastFlag, h.seq1, h.seq2, h.wellTyped, h.sig, h.closed, h.susp, h.excl, h.afterClose,
+    h.chan, h.wake⟩
+
+theorem inv_seqs (s : SSys) (q : List Tok) (h : Inv s) : Inv { s with seqs := q } :=
+  ⟨h.order, h.clears, h.qpos, h.flag, h.pastFlag, h.seq1, h.seq2, h.wellTyped, h.sig, h.closed, h.susp, h.excl, h.afterClose,
+    h.chan, h.wake⟩
+
+theorem inv_queueLen (s : SSys) (n : Nat) (h : Inv s) : Inv { s with queueLen := n } :=
+  ⟨h.order, h.clears, h.qpos, h.flag, h.pastFlag, h.seq1, h.seq2, h.wellTyped, h.sig, h.closed, h.susp, h.excl, h.afterClose,
+    h.chan, h.wake⟩
+
+theorem inv_winchSig (s : SSys) (b : Bool) (h : Inv s) : Inv { s with winchSig := b } :=
+  ⟨h.order, h.clears, h.qpos, h.flag, h.pastFlag, h.seq1, h.seq2, h.wellTyped, h.sig, h.closed, h.susp, h.excl, h.afterClose,
+    h.chan, h.wake⟩
+
+/-- The invariant is decidable (every law is an (in)equation or an implication between (in)equations
+over natural numbers): concrete states can be checked by evaluation. -/
+instance instDecidableInv (s : SSys) : Decidable (Inv s) :=
+  decidable_of_iff
+    (s.da1First = false ∧ s.resumeClears = true ∧ 1 ≤ s.qcap ∧
+     sumBy fActive s.callers + s.quitCloses = b2n s.closedFlag ∧
+     (1 ≤ sumBy fPastFlag s.callers → b2n s.closedFlag = 1) ∧
+     sumBy fSusp s.callers ≤ 1 ∧
+     (1 ≤ sumBy fSusp s.callers → sumBy fCloseSide s.callers + b2n s.killSig = 0) ∧
+     sumBy fBad s.callers = 0 ∧
+     sumBy fWD s.callers + sumBy fWC s.callers + pT s = s.closeSig + pX s.ppc ∧
+     s.closedSig ≤ pD s.ppc ∧
+     b2n s.suspendedFlag = sumBy fSC s.callers + sumBy fWD s.callers + sumBy fWC s.callers + pT s ∧
+     sumBy fSC s.callers + sumBy fWD s.callers + sumBy fWC s.callers + pT s ≤ 1 ∧
+     (1 ≤ sumBy fCQ s.callers + s.quitCloses → b2n s.suspendedFlag = 1) ∧
+     b2n s.seqsClosed = pD s.ppc ∧
+     s.closeSig + pR s.ppc + emptyN s.inbuf ≤ 2 + sumBy fWD s.callers + s.da1Pending)
+    ⟨fun ⟨a1, a2, a3, a4, a5, a6, a7, a8, a9, a10, a11, a12, a13, a14, a15⟩ =>
+       ⟨a1, a2, a3, a4, a5, a6, a7, a8, a9, a10, a11, a12, a13, a14, a15⟩,
+     fun h => ⟨h.order, h.clears, h.qpos, h.flag, h.pastFlag, h.seq1, h.seq2, h.wellTyped, h.sig, h.closed, h.susp, h.excl,
+       h.afterClose, h.chan, h.wake⟩⟩
 
 end VaxisModel.Lemmas.ConcInv
